@@ -696,7 +696,7 @@ def specOf : Metric → Option (List Dat → Rat)
   | .tpr => some tprSpec | .fpr => some fprSpec | .tnr => some tnrSpec | .fnr => some fnrSpec
   | .accuracy => some accuracySpec | .zeroOne => some zeroOneSpec
   | .mae => some maeSpec | .mse => some mseSpec
-  | .meanpred => some meanPredSpec
+  | .meanpred => some meanPredictionSpec
   | _ => none
 
 /-- on valid binary data every such base metric returns its first-principles value on EVERY non-empty
